@@ -54,9 +54,17 @@ pub fn build_text(c: &Value) -> String {
     lines.push(String::new());
     lines.push("[r](2)".into());
     lines.push(String::new());
-    lines.push("- item [i](2)".into());
+    lines.push("- it [i](2)".into());
+    lines.push("  more [j](2)".into());
     lines.push(String::new());
     lines.push("> [q](2)".into());
+    lines.push(String::new());
+    lines.push("| h | k |".into());
+    lines.push("|---|---|".into());
+    lines.push("| c | [c](2) |".into());
+    lines.push(String::new());
+    lines.push("tail [z](2)".into());
+    lines.push("end [y](2)".into());
     let mut t = String::new();
     for (i, l) in lines.iter().enumerate() {
         t.push_str(l);
@@ -66,7 +74,10 @@ pub fn build_text(c: &Value) -> String {
             "lf-crlf" => i >= link_line,
             _ => false,
         };
-        t.push_str(if crlf { "\r\n" } else { "\n" });
+        // (eof = false: the text ends without a final newline)
+        if i + 1 < lines.len() || c["eof"].as_bool().unwrap_or(true) {
+            t.push_str(if crlf { "\r\n" } else { "\n" });
+        }
     }
     t
 }
